@@ -59,10 +59,13 @@ func (b Beh) String() string { return [...]string{"pass", "replace", "drop", "er
 // NodeErr is the error a recording node returns: a fresh value per invocation,
 // so that Status.Warnings can be matched by identity.
 type NodeErr struct {
-	Obj  string
-	Prov string
-	Seq  int64
+	Obj   string
+	Prov  string
+	Seq   int64
+	Inner error // some node errors wrap a context error although the Send's context is alive
 }
+
+func (e *NodeErr) Unwrap() error { return e.Inner }
 
 func (e *NodeErr) Error() string {
 	return fmt.Sprintf("node-error obj=%s prov=%s seq=%d", e.Obj, e.Prov, e.Seq)
@@ -83,6 +86,7 @@ type Entry struct {
 	RetEv     *eventlogger.Event
 	RetErr    error
 	used      bool
+	stepIdx   int // position in its traversal, set by decompose
 }
 
 func (e *Entry) String() string {
@@ -208,11 +212,22 @@ func (n *RecNode) Process(ctx context.Context, e *eventlogger.Event) (*eventlogg
 	switch n.Behaviour(ent.Prov) {
 	case Pass:
 		out = e
+		if e != nil && (n.Typ == eventlogger.NodeTypeFormatter || n.Typ == eventlogger.NodeTypeFormatterFilter) {
+			// formatter-typed recording nodes format in place, like the stock formatters
+			e.FormattedAs("h-"+n.Obj, []byte(ent.Prov))
+		}
 	case Replace:
 		out = &eventlogger.Event{Type: ent.EvType, CreatedAt: ent.Created, Formatted: map[string][]byte{}, Payload: &Tok{S: ent.Prov + ">" + n.Obj}}
 	case Drop:
 	case Fail:
-		err = &NodeErr{Obj: n.Obj, Prov: ent.Prov, Seq: ent.Call}
+		ne := &NodeErr{Obj: n.Obj, Prov: ent.Prov, Seq: ent.Call}
+		switch rt.Mix(n.behSeed, 77) % 4 {
+		case 0:
+			ne.Inner = context.DeadlineExceeded
+		case 1:
+			ne.Inner = context.Canceled
+		}
+		err = ne
 	}
 	n.log.done(ent, out, err)
 	return out, err
